@@ -1,33 +1,17 @@
-(* Model/LeaseKnown.v — decidable predicates characterising the recorded defect classes of C18
-   (column 3 of the dispatch output; hypotheses of the _partial theorems). *)
+(* Model/LeaseKnown.v — predicates used as hypotheses of the C18 theorems.
+   No recorded defect class of C18 is left: the three panic classes (nil net1 / nil net2 / IPv6 lan), the in-place
+   rewrite, the seven corruption classes (no integrity line), the unchecked prefix length in configChanged, the
+   off-subnet leases and the empty client id were all repaired in /repo (known_findings.txt "fixed:" lines). *)
 From PV Require Import Base.Prelude Model.LeaseBase Model.Lease.
 Open Scope N_scope.
 
-(* The three panic classes of the unrepaired code (nil net1 / nil net2 dereference in loadByteArray, IPv6 lan in
-   newSubnet) were removed by fix commits in /repo (DESIGN 11 #23); no panic class is left: C18_new_total. *)
-
-(* the loaded net1 is wider than the configured home LAN (configChanged compares LAN.Addr() only,
-   not the prefix length), so a binding outside the home LAN passes [net1.LAN.Contains] *)
-Definition known_C18_bits (c : cfg) (i : input) : bool :=
-  match i with
-  | Doc _ d => match d_net1 d with
-             | Some n => pbits (s_lan n) <? pbits (c_home c)
-             | None => false
-             end
-  | _ => false
-  end.
-
-(* Which Allocated leases of a table are dropped by loadByteArray's validation at the next restart. *)
-
-(* the recorded class (finding restart-drops-empty-clientid): an acknowledged lease with an empty client id — a
-   client sending option 61 with length 0 is ACKed under the empty id, saveConfig omits it, the load drops it *)
-Definition known_C18_restart (t : table) : bool :=
-  existsb (fun l => allocated l && bytes_eqb (r_cid (l_rec l)) []) t.
-
-(* a state invariant of the DHCP server, not a defect class: every acknowledged address is a valid address inside
-   net1.  Since /repo 7baf630 (allocIPOffer takes a requested address only inside the lease's subnet; C11) no
-   reachable table violates it when net2 lies inside net1; before, it was the finding restart-drops-offsubnet-lease.
-   It is a hypothesis of C18_restart because that theorem quantifies over ALL tables, reachable or not. *)
-Definition alloc_in_net1 (s1 : subnet) (t : table) : bool :=
+(* A state invariant of the DHCP server (cluster C11/C12), not a defect class: every acknowledged lease can be
+   written to and read back from the lease file, i.e. it has a non-empty client id (getClientID falls back to
+   chaddr for an absent or zero-length option 61: /repo ec7166b) and a valid address inside net1 (allocIPOffer
+   takes a requested address only inside the lease's subnet: /repo 7baf630; net2 lies inside net1 when the
+   netfilter prefix does).  It is a hypothesis of C18_restart because that theorem quantifies over ALL tables,
+   reachable or not; C18_restart_needs_invariant shows that neither half can be dropped. *)
+Definition persistable (s1 : subnet) (t : table) : bool :=
   forallb (fun l => negb (allocated l)
-                    || (avalid (r_ip (l_rec l)) && contains (s_lan (n_cfg s1)) (r_ip (l_rec l)))) t.
+                    || (avalid (r_ip (l_rec l)) && contains (s_lan (n_cfg s1)) (r_ip (l_rec l))
+                        && negb (bytes_eqb (r_cid (l_rec l)) []))) t.
